@@ -37,6 +37,9 @@ def run(tier):
                    what='Evolver.evolve(): if any task raises, _save_project_sig (the only writer of the version/evolution tables) is not called and evolver.evolved stays false',
                    bounds='0-2 tasks of each of 2 classes, failing step -1..4, save may fail',
                    functions=['evolve/evolver.py Evolver.evolve']),
+        Obligation('create_models_error', 'harness/c17.py', 'h_create_models', timeout=300,
+                   what='EvolveAppTask._create_models(): a failure while creating models reaches the caller as EvolutionExecutionError carrying the failing statement (last_sql_statement) and, for a single app, its label; no created_models is sent (same harness as C17 create_models)',
+                   bounds='1-3 tasks x {ok, fail}', functions=['evolve/evolve_app_task.py EvolveAppTask._create_models']),
         Obligation('execute_tasks_error_propagates', 'harness/c17.py', 'h_execute_tasks', timeout=600,
                    partitions=[[b0, b1] for b0 in range(1, 5) for b1 in range(0, 5) if not (b0 == 4 and b1 == 4)],
                    what='EvolveAppTask.execute_tasks(): a failure at any step (evolution SQL, model creation, migration, deferred SQL of new models) reaches the caller as EvolutionExecutionError and no later work runs, so Evolver.evolve() never goes on to save the signature (same harness as C17 execute_tasks; here the clause used is error <=> failed step and the work trace stops there)',
